@@ -474,6 +474,9 @@ func blockContainerLayout(context *layoutContext, box_ Box, bottomSpace pr.Float
 			for _, footnote := range newFootnotes {
 				context.unlayoutFootnote(footnote)
 			}
+			if establishesFormattingContext(box_) {
+				context.leaveBlockFormattingContext()
+			}
 
 			return nil, blockLayout{nextPage: tree.PageBreak{Break: "any", Page: page_}}, maxLines
 		} else if stop {
@@ -503,6 +506,9 @@ func blockContainerLayout(context *layoutContext, box_ Box, bottomSpace pr.Float
 		removePlaceholders(context, append(append([]Box{}, newChildren...), box.Children[skip:]...), absoluteBoxes, fixedBoxes)
 		for _, footnote := range allFootnotes {
 			context.unlayoutFootnote(footnote)
+		}
+		if establishesFormattingContext(box_) {
+			context.leaveBlockFormattingContext()
 		}
 
 		return nil, blockLayout{nextPage: tree.PageBreak{Break: "any"}}, maxLines
